@@ -6,6 +6,7 @@ use rubato::{
     ResamplerConstructionError, Sample, SincFixedIn, SincFixedOut, SincInterpolationParameters,
     SincInterpolationType, WindowFunction,
 };
+use rubato::sinc_interpolator::ScalarInterpolator;
 use serde_json::{json, Value};
 use std::panic::{catch_unwind, AssertUnwindSafe};
 
@@ -68,6 +69,18 @@ pub fn run<T: Sample>(tname: &str) -> (u64, Vec<Value>, Vec<String>) {
         expect(format!("SincFixedOut::new(1.5,{:?})", m), outcome(|| SincFixedOut::<T>::new(1.5, m, params(), 16, 2)), want.clone());
         expect(format!("FastFixedIn::new(1.5,{:?})", m), outcome(|| FastFixedIn::<T>::new(1.5, m, PolynomialDegree::Cubic, 16, 2)), want.clone());
         expect(format!("FastFixedOut::new(1.5,{:?})", m), outcome(|| FastFixedOut::<T>::new(1.5, m, PolynomialDegree::Cubic, 16, 2)), want.clone());
+    }
+    // the constructors that take a ready-made interpolator are public too
+    let interp = || Box::new(ScalarInterpolator::<T>::new(8, 2, 0.9, WindowFunction::Hann));
+    for &r in &bad_ratios {
+        let want = format!("InvalidRatio({:?})", r);
+        expect(format!("SincFixedIn::new_with_interpolator({:?},2.0)", r), outcome(|| SincFixedIn::<T>::new_with_interpolator(r, 2.0, SincInterpolationType::Linear, interp(), 16, 2)), want.clone());
+        expect(format!("SincFixedOut::new_with_interpolator({:?},2.0)", r), outcome(|| SincFixedOut::<T>::new_with_interpolator(r, 2.0, SincInterpolationType::Linear, interp(), 16, 2)), want.clone());
+    }
+    for &m in &bad_rel {
+        let want = format!("InvalidRelativeRatio({:?})", m);
+        expect(format!("SincFixedIn::new_with_interpolator(1.5,{:?})", m), outcome(|| SincFixedIn::<T>::new_with_interpolator(1.5, m, SincInterpolationType::Cubic, interp(), 16, 2)), want.clone());
+        expect(format!("SincFixedOut::new_with_interpolator(1.5,{:?})", m), outcome(|| SincFixedOut::<T>::new_with_interpolator(1.5, m, SincInterpolationType::Cubic, interp(), 16, 2)), want.clone());
     }
     for (a, b) in [(0usize, 48000usize), (44100, 0), (0, 0)] {
         let want = format!("InvalidSampleRate({},{})", a, b);
